@@ -1097,16 +1097,34 @@ pub fn fam_bytes(cfg: &Config, flags: Flags, thorough: bool) -> (Report, Vec<u8>
 			buf.extend_from_slice(b"2]");
 			mon.input(name, &buf);
 		};
+		// further placements: in front of a document that has an error of its own later on, and inside
+		// a unicode escape (right after `\u`, and after a character that cannot continue it)
+		let mut buf2: Vec<u8> = Vec::with_capacity(24);
+		let mut emit_more = |mon: &mut Mon, bytes: &[u8]| {
+			for (pre, post) in [(&b""[..], &b"[1,]"[..]), (&b"\"\\u"[..], &b"\""[..]), (&b"[\"\\uZ"[..], &b"\"]"[..]), (&b"{\"a\":1"[..], &b"}"[..])] {
+				buf2.clear();
+				buf2.extend_from_slice(pre);
+				buf2.extend_from_slice(bytes);
+				buf2.extend_from_slice(post);
+				mon.input(name, &buf2);
+			}
+		};
 		emit(mon, &[a]);
-		n += 3;
+		emit_more(mon, &[a]);
+		n += 7;
 		for b in 0..=255u8 {
 			emit(mon, &[a, b]);
-			n += 3;
+			emit_more(mon, &[a, b]);
+			n += 7;
 			// 3-byte strings: all of them when the first byte is not ASCII (or thorough)
 			if a >= 0x80 || thorough {
 				for c in 0..=255u8 {
 					emit(mon, &[a, b, c]);
 					n += 3;
+					if matches!(a, 0xE0 | 0xED | 0xEF | 0xF0 | 0xF4) {
+						emit_more(mon, &[a, b, c]);
+						n += 4;
+					}
 				}
 			}
 		}
